@@ -20,7 +20,9 @@ def plan(tier):
         "mc": [{"module": "IndexedFastaMC", "cfg": "IndexedFastaMC.cfg" if q else "IndexedFastaMC_thorough.cfg",
                 "timeout": 3000},
                {"module": "IndexedFastaMC", "cfg": "IndexedFastaMC_hist.cfg" if q else "IndexedFastaMC_hist_thorough.cfg",
-                "timeout": 3000}],
+                "timeout": 3000},
+               {"module": "IndexedFastaSharedMC",
+                "cfg": "IndexedFastaSharedMC.cfg" if q else "IndexedFastaSharedMC_thorough.cfg", "timeout": 3000}],
         "families": [{"fam": "faidx", "trace": "IndexedFastaTrace", "nfiles": 4 if q else 8}],
         "required_obligations": [
             "tlc_behaviours_replayed", "small_exhaustive", "multi_record", "w1", "w_eq_len", "w_gt_len", "crlf", "lf",
@@ -31,7 +33,9 @@ def plan(tier):
             "trunc_in_header", "trunc_in_region", "trunc_in_terminator", "trunc_after_region",
             "adjacent_windows_line_aligned_seam", "adjacent_seam_from_tlc_behaviour", "adjacent_seam_at_8k_boundary",
             "adjacent_seam_between_cr_and_lf", "bufreader_seam_on_line_end_then_adjacent",
-            "empty_interval_into_dirty_buffer", "fetch_beyond_4GiB", "line_number_beyond_2_32", "big_control_below_4GiB",
+            "empty_interval_into_dirty_buffer", "name_first_byte_sweep", "name_with_csv_special_first_byte",
+            "index_from_file", "shared_cursor_two_readers", "shared_cursor_adjacent_window_after_foreign_read",
+            "fetch_beyond_4GiB", "line_number_beyond_2_32", "big_control_below_4GiB",
             "virtual_generator_small_dump"],
         # counted as well, but not required (they depend on what the code answers, a mutant may silence them):
         # several_fills_in_one_read, truncation_error_seen, iter_error_item_seen
@@ -46,12 +50,16 @@ def plan(tier):
                 "offset x every interval x both read paths x 7 fill schedules; random files (<= 4 records, len <= "
                 "3000, widths {1,2,7,60,61,511,512,513,1000,len,len+k}) with boundary intervals, refusals, fetch/read "
                 "histories, abandoned iterators and aimed truncation classes; lines longer than the 8 KiB BufReader; "
+                "record names whose first byte sweeps all printable ASCII (also inside and as the whole name), index "
+                "from Index::new and from IndexedReader::from_file, every record by name and by number; two "
+                "IndexedReaders over File::try_clone handles of one file (one OS cursor), interleaved fetch/read "
+                "histories with adjacent windows; "
                 "closed-form virtual files (never materialised) of up to 5*10^9 bases, widths 60 / 7 / 1, LF/CRLF: "
                 "fetches whose byte offset is just below / at / above 2^32 and whose line number is >= 2^32, both "
                 "read paths, expected slice by the closed form BigExpected (positions as pairs hi*10^6+lo)",
         "bounds": {"mc": "len <= 6 / 9, widths 1..3 / 1..4, LF/CRLF, Cap = 4 (code: 8192), ICap = 2 (code: 512), every "
                          "cut, every (start, stop) incl. invalid, both paths, all fill schedules; histories of 2 / 3 "
-                         "fetches on smaller files",
+                         "fetches on smaller files; two readers on one shared cursor (len <= 2/4, width 2, Cap 3, 3 fetches)",
                    "impl": "len <= 3000 (<= 150 lines per record), line width <= 9000, <= 4 records"},
         "assumptions": [
             "std BufReader (fill_buf only on an empty buffer, seek(Start) discards the buffer) is trusted; its "
